@@ -29,7 +29,7 @@ class C08(Check):
         "HiGHS is an oracle (certificate-checked exact simplex)",
     ]
     assumptions = ["floats denote exact rationals; numeric reading of the property"]
-    min_branches = {"ok": 200, "IncompatibleArgsError": 5, "shared-out": 30}
+    min_branches = {"trivial-operand": 8, "ok": 200, "IncompatibleArgsError": 5, "shared-out": 30}
 
     def generate(self, rng, n, tier):
         out = []
@@ -73,9 +73,13 @@ class C08(Check):
                     c1["g"] = [dict(c=dict(t["c"]), k=t["k"])] + c1["g"]
                     o = rng.choice(c2["outs"])
                     c2["g"].append({"c": {o: 1.0, v: -1.0}, "k": float(pt[o] - pt[v] + rng.randint(0, 3))})
+            elif m < 0.75:
+                # a trivial viewpoint (no assumption, no guarantee) that still declares its own variables: the merge is over the union
+                tc = rng.choice([c1, c2])
+                tc["a"], tc["g"] = [], []
             if rng.random() < 0.5:
                 c1, c2 = c2, c1
-            out.append({"op": "merge", "c1": c1, "c2": c2})
+            out.append({"op": "merge", "c1": c1, "c2": c2, "tag": "trivial-operand" if (not c1["a"] and not c1["g"]) or (not c2["a"] and not c2["g"]) else ""})
         return out
 
     def run_impl(self, case):
@@ -123,6 +127,8 @@ class C08(Check):
         b = [impl.get("err", "ok")]
         if set(case["c1"]["outs"]) & set(case["c2"]["outs"]):
             b.append("shared-out")
+        if case.get("tag"):
+            b.append(case["tag"])
         return b
 
 
